@@ -104,12 +104,17 @@ fn reachable_check(what: &str, v: &[E], viol: &mut Vec<String>) {
 
 /// run the scenario with the `panic_at`-th callback panicking (u32::MAX = dry run)
 pub fn run_scenario(sc: &Scenario, panic_at: u32) -> RunOut {
+    run_scenario_family(sc, panic_at, if destructor_family(sc.scen) { 0x40 } else { 0 })
+}
+
+/// `family`: 0 = the k-th callback (predicate / key / Clone / PartialEq / iterator / initialiser) panics,
+/// 0x40 = the k-th destructor call panics
+pub fn run_scenario_family(sc: &Scenario, panic_at: u32, family: u8) -> RunOut {
     let _ = k_meta();
     ledger::begin_case(7);
     reset_sides();
     z_reset();
     let mut out = RunOut { callbacks: 0, panicked: false, viol: vec![], known: None, moved_before_panic: false };
-    let family = if destructor_family(sc.scen) { 0x40 } else { 0 };
     let bump = {
         let _g = enter_arena(1);
         Bump::new()
@@ -131,6 +136,16 @@ pub fn run_scenario(sc: &Scenario, panic_at: u32) -> RunOut {
         // build the pre-state without counting its callbacks
         cb_reset(u32::MAX, family);
         let mut v = mk(&sc.pre);
+        if sc.follow & 2 != 0 {
+            // leave already-dropped values in the spare capacity, as a vector with a history has
+            let _g = enter_arena(1);
+            let n = v.len();
+            v.reserve(6);
+            for j in 0..3 {
+                v.push(E::new(20 + j));
+            }
+            v.truncate(n);
+        }
         let mut v2 = if matches!(sc.scen, 8 | 26) { Some(mk(&sc.pre)) } else { None };
         let src: Vec<E> = extra.iter().map(|&x| E::new(x)).collect();
         cb_reset(panic_at, family);
@@ -556,16 +571,22 @@ impl Engine for C16Engine {
     fn run(&self, bytes: &[u8]) -> CaseOut {
         let sc = decode(bytes);
         let mut out = CaseOut { hash: fnv(bytes), ..Default::default() };
-        let dry = run_scenario(&sc, u32::MAX);
-        for m in dry.viol.iter() {
-            out.viol.push(format!("without any panic: {m}"));
-        }
-        let n = dry.callbacks.min(64);
         let mut fired = 0u32;
         let mut fired_after_move = 0u32;
         let mut excluded = 0u32;
+        let mut total_points = 0u32;
+        for family in [0u8, 0x40] {
+        let fname = if family == 0 { "callback" } else { "destructor" };
+        let dry = run_scenario_family(&sc, u32::MAX, family);
+        for m in dry.viol.iter() {
+            if family == 0 {
+                out.viol.push(format!("without any panic: {m}"));
+            }
+        }
+        let n = dry.callbacks.min(64);
+        total_points += n;
         for k in 0..n {
-            let r = run_scenario(&sc, k);
+            let r = run_scenario_family(&sc, k, family);
             if r.panicked {
                 fired += 1;
                 if r.moved_before_panic {
@@ -581,21 +602,22 @@ impl Engine for C16Engine {
                     _ => {
                         for m in r.viol.iter().take(3) {
                             if out.viol.len() < 8 {
-                                out.viol.push(format!("panic at callback #{k} of {n}: {m}"));
+                                out.viol.push(format!("panic at {fname} invocation #{k} of {n}: {m}"));
                             }
                         }
                     }
                 }
             }
         }
+        }
         out.nontrivial = fired_after_move > 0;
-        out.stats = vec![1, n, fired, fired_after_move, excluded, destructor_family(sc.scen) as u32];
+        out.stats = vec![1, total_points, fired, fired_after_move, excluded, destructor_family(sc.scen) as u32];
         out
     }
     fn describe(&self, bytes: &[u8]) -> Value {
         let sc = decode(bytes);
         json!({"operation": SCEN_NAMES[sc.scen as usize], "pre_state_payloads": sc.pre, "args": [sc.a, sc.b, sc.c], "follow_up": if sc.follow & 1 == 0 { "keep using the container, then drop it and the arena" } else { "drop the container and the arena" },
-               "note": "dry-run to count the callback (or destructor) invocations n, then one run per k < n in which the k-th invocation panics once"})
+               "pre_state_has_dropped_values_in_spare_capacity": sc.follow & 2 != 0, "note": "for each of the two families (callbacks; destructors): dry-run to count the invocations n, then one run per k < n in which the k-th invocation panics once"})
     }
     fn stat_names(&self) -> Vec<&'static str> {
         vec!["scenarios", "panic_points_enumerated", "panics_fired", "panics_fired_after_elements_moved", "runs_excluded_as_known_findings", "destructor_family_scenarios"]
@@ -607,7 +629,7 @@ impl Engine for C16Engine {
         }
     }
     fn rule(&self) -> String {
-        "cases are proptest-generated scenarios (one of 33 callback-taking operations of Vec/String/Box/arena slices, a pre-state of 0-8 elements with observable destructors, arguments, a follow-up); each is dry-run to count its callback (predicate/key/Clone/PartialEq/iterator/initialiser) or destructor invocations n and then re-run for every k < n with the k-th invocation panicking once, followed by continued use or drop of the container and finally of the arena. Oracle after unwinding and again after the follow-up: no value dropped twice, nothing reachable through the container twice or after its destructor ran, nothing handed to the caller still reachable, String bytes valid UTF-8, the arena still allocates; leaks are allowed. non-trivial = a run whose panic fired after at least one callback had completed (elements already moved/compared); distinct = distinct scenario bytes".into()
+        "cases are proptest-generated scenarios (one of 33 callback-taking operations of Vec/String/Box/arena slices, a pre-state of 0-8 elements with observable destructors, arguments, a follow-up); each is dry-run twice to count its callback (predicate/key/Clone/PartialEq/iterator/initialiser) invocations and its destructor invocations, and re-run for every index k of either family with that invocation panicking once, followed by continued use or drop of the container and finally of the arena. Oracle after unwinding and again after the follow-up: no value dropped twice, nothing reachable through the container twice or after its destructor ran, nothing handed to the caller still reachable, String bytes valid UTF-8, the arena still allocates; leaks are allowed. non-trivial = a run whose panic fired after at least one callback had completed (elements already moved/compared); distinct = distinct scenario bytes".into()
     }
     fn assumptions(&self) -> Vec<String> {
         vec!["panic-once: the injected panic fires at exactly one invocation, so no double panic/abort is provoked".into(), "element types are heap-free, so a double drop is observed as a counter reaching 2 rather than as memory corruption".into()]
